@@ -15,7 +15,8 @@ from phylib.io.array import SpikeSelector  # noqa: E402
 ID = 'C17'
 LEVEL = 'exploration'
 RULE = (
-    "Hypothesis: chunk grids of 2..9 strictly increasing bounds; 0..40 sorted spike times (int or "
+    "Hypothesis: chunk grids of 2..9 strictly increasing bounds (integers or half-integers, "
+    "independently of the time dtype); 0..40 sorted spike times (int or "
     "float), each drawn with probability 1/2 exactly on a bound (incl. first and last) else "
     "anywhere inside or slightly outside the grid; cluster vector over a gapped alphabet; "
     "n_chunks_kept 1..8; per selector up to 6 calls with count in {None,0,1,2,5,100}, requested "
@@ -35,24 +36,35 @@ ALPH = [0, 1, 3, 4, 8]
 @st.composite
 def _case(draw):
     nb = draw(st.integers(2, 9))
-    as_float = draw(st.booleans())
+    as_float = draw(st.booleans())          # spike times as floats
+    frac_bounds = draw(st.booleans())       # chunk grid on half-integers (any time dtype)
     steps = draw(st.lists(st.integers(1, 6), min_size=nb - 1, max_size=nb - 1))
     b0 = draw(st.integers(0, 3))
     bounds = [b0]
     for s in steps:
         bounds.append(bounds[-1] + s)
+    if frac_bounds:
+        bounds = [b + 0.5 * draw(st.integers(0, 1)) for b in bounds]
+        bounds = [bounds[0]] + [max(b, a + 0.5) for a, b in zip(bounds, bounds[1:])]
+        for i in range(1, len(bounds)):
+            if bounds[i] <= bounds[i - 1]:
+                bounds[i] = bounds[i - 1] + 0.5
     n = draw(st.integers(0, 40))
-    on_bound = st.sampled_from(bounds)
-    anywhere = st.integers(bounds[0] - 1, bounds[-1] + 1)
+    lo, hi = int(bounds[0]) - 1, int(bounds[-1]) + 2
     if as_float:
-        anywhere = anywhere | st.floats(bounds[0] - 1, bounds[-1] + 1, allow_nan=False).map(
+        on_bound = st.sampled_from(bounds)
+        anywhere = st.integers(lo, hi) | st.floats(lo, hi, allow_nan=False).map(
             lambda x: round(x * 4) / 4)
+    else:
+        # integer times: on integer bounds, or right next to fractional ones
+        near = sorted(set(int(b) for b in bounds) | set(int(b) + 1 for b in bounds))
+        on_bound = st.sampled_from(near)
+        anywhere = st.integers(lo, hi)
     times = sorted(draw(st.lists(on_bound | anywhere, min_size=n, max_size=n)))
     if as_float:
         times = [float(t) for t in times]
-        bounds_out = [float(b) if draw(st.booleans()) else b for b in bounds]
-    else:
-        bounds_out = bounds
+    bounds_out = [float(b) if (frac_bounds or (as_float and draw(st.booleans()))) else int(b)
+                  for b in bounds]
     clusters = draw(st.lists(st.sampled_from(ALPH), min_size=n, max_size=n))
     nkept = draw(st.integers(1, 8))
     calls = []
